@@ -207,7 +207,8 @@ def selftest(ctx, trace, wtrace, wids, kd):
     wl = lib.read_lines(wtrace)
     runs = [i for i, l in enumerate(wl) if lib.is_new(l)]
     flagged = {lib.run_of_line(wl, ln)[0] for ln in vc["violations"]}
-    ok_c = set(runs) == flagged and len(runs) == len(wids)
+    # (a finding that is not listed - fixed in the tree under test - need not show any more)
+    ok_c = len(runs) == len(wids) and all(r in flagged for r, (fid, _) in zip(runs, wids) if fid in kd)
     res = {"corrupt_one_field_flagged": ok_a, "drop_one_event_flagged": ok_b, "unlisted_findings_are_violations": ok_c,
            "witness_runs": len(runs), "witness_runs_flagged_without_list": len(flagged)}
     ctx.cov["binding_selftest"] = res
@@ -269,9 +270,8 @@ def run(ctx):
     d = lib.run_driver("drv_shmem", ["--programs", wprogs, "--out", wtrace])
     ctx.stage("run", source="witnesses", programs=d.get("programs"), events=d.get("events"), wall_s=d["wall_s"])
     vw = judge_trace(ctx, wtrace, "witness programs", kd, totals)
-    for fid, _ in ws:
-        if fid in kd and not vw.get("dev_" + fid):
-            raise lib.ToolError(f"the witness of the listed finding {fid} no longer shows it - fixed? then set its status to \"fixed\" in findings.d/{fid}.json")
+    # a listed finding whose witness no longer shows it: reported at the end (a violation elsewhere explains it better)
+    stale = [fid for fid, _ in ws if fid in kd and not vw.get("dev_" + fid)]
     # ---- execution on the real code: real processes, one region, one lock file (the workers mostly wait: oversubscribe)
     trace = ctx.path("trace_mc.ndjson")
     d = lib.run_sharded(ctx, "drv_shmem", allprogs, trace, shards=max(4, min(3 * lib.NCPU, 16)))
@@ -292,6 +292,8 @@ def run(ctx):
     judge_trace(ctx, trace, "MC_Shmem (all configurations)", kd, totals)
     if ctx.violations:
         ctx.cov["binding_selftest"] = {"skipped": "violations were reported"}
+    elif stale:
+        raise lib.ToolError(f"the witnesses of the listed findings {stale} no longer show them - fixed? then set their status to \"fixed\" in findings.d/")
     else:
         selftest(ctx, trace, wtrace, ws, kd)
         need = {"n_blocked": 100, "n_granted": 100, "n_crash": 100, "n_load": 1000, "n_store": 1000, "n_add": 500, "n_remove": 200, "n_mgr": 1000, "n_msg": 100}
